@@ -20,7 +20,7 @@
 #define CAP (GEN_CAP(KN, SEGL) + 8)
 
 int main(void){
-  CH tb[CAP], exp[3 * CAP], tmp[3 * CAP], tmp2[3 * CAP]; CH *t; long n, en, i; URI u; const CH *ep = 0; int rc, len = 0, owned, mode; unsigned mask, m0, m0ex = 77; CH *got;
+  CH tb[CAP], exp[3 * CAP], tmp[3 * CAP], tmp2[3 * CAP]; CH *t; long n, en, i; URI u; const CH *ep = 0; int rc, len = 0, owned, mode, kf; unsigned mask, m0, m0ex = 77; CH *got;
   os_split_t s;
   n = gen_uri(tb, NFLAGS, KN, SEGL, "u");
   t = uk_buf((size_t)n * sizeof(CH), "text"); for (i = 0; i < n; i++) t[i] = tb[i];
@@ -50,6 +50,19 @@ int main(void){
   en = on_normalize(t, n, &s, mode == 0 ? mask : 63u, exp, tmp, tmp2);
   got = recompose(&u, &len);
   uk_note_text("got", got, len, sizeof(CH)); uk_note_text("expected", exp, en, sizeof(CH));
+  kf = 0;
+#ifdef KF_NORM_DSLASH
+    if (on_unspecified & ON_CLS_DSLASH) kf = 1;
+#endif
+#ifdef KF_NORM_COLON
+    if (on_unspecified & ON_CLS_COLON) kf = 1;
+#endif
+#ifdef KF_NORM_EMPTY
+    if (on_unspecified & ON_CLS_EMPTY) kf = 1;
+#endif
+#ifdef KF_NORM_ABS
+    if (on_unspecified & ON_CLS_ABS) kf = 1;
+#endif
 #ifdef P_C08
   if (!on_unspecified){
     uk_assert(len == en, mode == 0 ? "C08: selected components take the normal form, others keep their text (length)" : "C08: normalising with the required mask equals full normalisation (length)");
@@ -61,12 +74,13 @@ int main(void){
     uk_cover("normal-form-compared");
   } else uk_cover("path-form-left-to-C07-C09");
   /* idempotence */
-  { int len2 = 0; CH *again; rc = U(uriNormalizeSyntaxExMm)(&u, mask, &mm);
+  if (!kf){ int len2 = 0; CH *again; rc = U(uriNormalizeSyntaxExMm)(&u, mask, &mm);
     uk_assert(rc == URI_SUCCESS, "C08: second normalisation succeeds");
     again = recompose(&u, &len2);
     uk_assert(len2 == len, "C08: normalising twice equals normalising once (length)");
     if (len2 == len) for (i = 0; i < len; i++) uk_assert(again[i] == got[i], "C08: normalising twice equals normalising once"); }
 #endif
+  if (kf){ uk_cover("known-finding-class"); goto after_meaning; }
 #ifdef P_C09
   { int had_scheme = s.sch_a >= 0, had_auth = s.has_auth;
     uk_assert((u.scheme.first != 0) == had_scheme, "C09: normalisation neither adds nor removes a scheme");
@@ -87,6 +101,7 @@ int main(void){
 #ifdef P_C07
   chk_reparse_stable(&u);
 #endif
+after_meaning:
 #ifdef P_C12
   if (mask != 0){
     uk_assert(u.owner == URI_TRUE, "C12: a URI normalised with a non-zero mask owns its text");
